@@ -731,7 +731,14 @@ class C09(Family):
         if missing is None:
             missing = rng.random() < 0.25
         if missing:
-            ws[rng.randrange(len(ws))] = rng.choice(["7", "1/8", "9/2", "0"])
+            if rng.random() < 0.5:
+                # a request next to a stored frequency (2^-40 .. 2^-30 away, exactly a binary64 number): it
+                # is NOT stored, eval must refuse it like any other missing frequency (seeded C09-m9)
+                w = Fraction(rng.choice(grid))
+                near = w + rng.choice([1, -1]) * Fraction(1, 2 ** rng.choice([30, 34, 40]))
+                ws[rng.randrange(len(ws))] = tok(near) if near > 0 and tok(near) not in grid else "7"
+            else:
+                ws[rng.randrange(len(ws))] = rng.choice(["7", "1/8", "9/2", "0"])
         return {"ws": ws, "via": rng.choice(["eval", "call"]),
                 "scalar": len(ws) == 1 and rng.random() < 0.5}
 
@@ -739,6 +746,18 @@ class C09(Family):
         r = rng.random()
         st = self.new_state(rng)
         st["smooth_ok"] = False
+        if r < 0.08:
+            # two stored frequencies 2^-40 .. 2^-30 apart (distinct binary64 numbers): every request must
+            # return the data stored at exactly that frequency, never its neighbour's (seeded C09-m9)
+            g = self.rgrid(rng, rng.choice([2, 3, 4]))
+            k = rng.randrange(len(g))
+            twin = tok(Fraction(g[k]) + Fraction(1, 2 ** rng.choice([30, 34, 40])))
+            if twin not in g:
+                g = g[:k + 1] + [twin] + g[k + 1:]
+            st["grid"] = g
+            t = self.frd_leaf(rng, self.rshape(rng), st)
+            ws = [g[k + 1], g[k]] if rng.random() < 0.5 else [g[k + 1]]
+            return {"tree": t, "eval": {"ws": ws, "via": rng.choice(["eval", "call"]), "scalar": False}}
         if r < 0.3:
             # unsorted grid
             g = self.rgrid(rng, rng.choice([2, 3, 3, 4]))
